@@ -214,6 +214,9 @@ def sqrt_poly(p: Poly) -> Rat:
         rc = _perfect_square(c)
         if rc is not None and all(e % 2 == 0 for _, e in m):
             return Rat(Poly({tuple((k, e // 2) for k, e in m): rc}))
+    alt = _monomial_via_sin(p)
+    if alt is not None:
+        return alt
     # common numeric content that is a perfect square is pulled out; the rest becomes one atom
     lead = p.t[sorted(p.t, key=repr)[0]]
     scale = Fraction(1)
@@ -226,6 +229,47 @@ def sqrt_poly(p: Poly) -> Rat:
     key = ("sqrt", repr(p.key()))
     SQRT_RADICANDS.setdefault(key, p)
     return Rat(Poly({((key, 1), ): scale}))
+
+
+def _raw_mul(a: dict, b: dict) -> dict:
+    d: dict = {}
+    for m1, c1 in a.items():
+        for m2, c2 in b.items():
+            m = _mono_mul(m1, m2)
+            d[m] = d.get(m, 0) + c1 * c2
+    return {m: c for m, c in d.items() if c != 0}
+
+
+def _monomial_via_sin(p: Poly) -> Optional[Rat]:
+    """The normal form rewrites sin^2 to 1 - cos^2; a perfect square such as r^2 sin(t)^2 is then stored as r^2 - r^2 cos(t)^2.
+    Try the opposite orientation (cos^2 -> 1 - sin^2) for each subset of the angles involved and accept a perfect-square monomial."""
+    import itertools
+    angles = sorted({k[1] for m in p.t for k, e in m if k[0] == "cos" and e >= 2})
+    if not angles or len(angles) > 3:
+        return None
+    for r in range(1, len(angles) + 1):
+        for subset in itertools.combinations(angles, r):
+            cur: dict = {}
+            for m, c in p.t.items():
+                term = {(): c}
+                for k, e in m:
+                    if k[0] == "cos" and k[1] in subset and e >= 2:
+                        one_minus = {(): Fraction(1), ((("sin", k[1]), 2), ): Fraction(-1)}
+                        for _ in range(e // 2):
+                            term = _raw_mul(term, one_minus)
+                        if e % 2:
+                            term = _raw_mul(term, {((k, 1), ): Fraction(1)})
+                    else:
+                        term = _raw_mul(term, {((k, e), ): Fraction(1)})
+                for mm, cc in term.items():
+                    cur[mm] = cur.get(mm, 0) + cc
+            cur = {m: c for m, c in cur.items() if c != 0}
+            if len(cur) == 1:
+                (m, c), = cur.items()
+                rc = _perfect_square(c)
+                if rc is not None and all(e % 2 == 0 for _, e in m):
+                    return Rat(Poly({tuple((k, e // 2) for k, e in m): rc}))
+    return None
 
 
 def sqrt_rat(r: Rat) -> Rat:
@@ -417,3 +461,80 @@ def veq(u: list, v: list) -> bool:
 
 def generic_vector(name: str) -> list:
     return [V(f"{name}{i}") for i in range(3)]
+
+
+# ------------------------------------------------------------------------------------------ numeric witnesses
+
+
+def _eval_poly(p: Poly, val) -> float:
+    tot = 0.0
+    for m, c in p.t.items():
+        t = float(c)
+        for k, e in m:
+            t *= val(k)**e
+        tot += t
+    return tot
+
+
+def eval_rat(r: Rat, point: dict) -> float:
+    """Numeric value of a normal form at `point` (variable name -> float). sin/cos/sqrt atoms are computed, generic function
+    atoms (and their formal derivatives) get independent pseudo-random values: any assignment is admissible for a generic function."""
+    import math
+    import zlib
+
+    cache: dict = {}
+
+    def val(k) -> float:
+        if k in cache:
+            return cache[k]
+        if k[0] == "v":
+            if k[1] not in point:
+                point[k[1]] = 0.37 + (zlib.crc32(repr(k).encode()) % 1000) / 1300.0
+            v = point[k[1]]
+        elif k[0] == "sin":
+            v = math.sin(val(("v", k[1])))
+        elif k[0] == "cos":
+            v = math.cos(val(("v", k[1])))
+        elif k[0] == "sqrt":
+            v = math.sqrt(_eval_poly(SQRT_RADICANDS[k], val))
+        elif k[0] == "f":
+            v = 0.21 + (zlib.crc32((repr(k) + repr(sorted(point.get("__salt__", "")))).encode()) % 1000) / 900.0
+        else:
+            raise AnalysisError(f"algebra: cannot evaluate atom {k!r}")
+        cache[k] = v
+        return v
+
+    return _eval_poly(r.n, val) / _eval_poly(r.d, val)
+
+
+def witness(a: Rat, b: Rat, tries: int = 6) -> Optional[dict]:
+    """A concrete point at which the two normal forms take different values, or None when they agree at every tried point."""
+    import random
+    rng = random.Random(20240607)
+    for i in range(tries):
+        names = sorted({k[1] for r in (a, b) for p in (r.n, r.d) for k in p.atoms() if k[0] in ("v", "sin", "cos")})
+        point = {n: rng.uniform(0.35, 1.25) for n in names}
+        point["__salt__"] = str(i)
+        try:
+            va, vb = eval_rat(a, dict(point)), eval_rat(b, dict(point))
+        except (ValueError, ZeroDivisionError):
+            continue
+        if abs(va - vb) > 1e-7 * max(1.0, abs(va), abs(vb)):
+            pt = {k: round(v, 6) for k, v in point.items() if k != "__salt__"}
+            return {"point": pt, "left": va, "right": vb}
+    return None
+
+
+def decide_equal(a: Rat, b: Rat, what: str = "") -> tuple[bool, Optional[dict]]:
+    """(equal?, witness). Equality is decided by normal form; an inequality is reported only together with a numeric witness.
+    Normal forms that differ while all sample points agree mean the algebra is incomplete for this formula: ANALYSIS-ERROR."""
+    if a.eq(b):
+        return True, None
+    w = witness(a, b)
+    if w is None:
+        raise AnalysisError(f"algebra: cannot decide {what}: normal forms differ ({a!r} vs {b!r}) but agree numerically at all sample points")
+    return False, w
+
+
+def same(a: Rat, b: Rat, what: str = "") -> bool:
+    return decide_equal(a, b, what)[0]
